@@ -1,0 +1,16 @@
+//go:build verif
+
+// Contracts (machine-checked specifications) for the generic router, read by /verif's govc.
+// This file contains comments only and compiles to nothing with or without the tag.
+
+package router
+
+// A sealed router accepts no further routes; a route is added only under an identifier that was
+// absent, and every other entry keeps its controller (C05: routing is by identifier).
+//@ func (r *Router) AddRoute(route) (err)
+//@   requires[base] r != nil
+//@   modifies mapof(r.routes)
+//@   ensures[C05] old(r.sealed) ==> err != nil
+//@   ensures[C05] err != nil ==> forall k int :: mapHas(r.routes, k) == old(mapHas(r.routes, k)) && mapGet(r.routes, k) == old(mapGet(r.routes, k))
+//@   ensures[C05] err == nil ==> exists id int :: !old(mapHas(r.routes, id)) && mapHas(r.routes, id) && mapGet(r.routes, id) == route &&
+//@                  forall k int :: k != id ==> mapHas(r.routes, k) == old(mapHas(r.routes, k)) && mapGet(r.routes, k) == old(mapGet(r.routes, k))
